@@ -676,3 +676,26 @@ func VH_C14_Grammar_AnonTwins() {
 	vObserve("ebnf", p.String())
 	vReach("grammar")
 }
+
+// ---------- productions referenced only from inside lookahead groups ----------
+
+type vgKwNeg struct {
+	K string `@( "end" | "else" )`
+}
+type vgKwPos struct {
+	K string `@"begin"`
+}
+type vgLookaheadOnly struct {
+	Guard *vgKwNeg `(?! @@ )`
+	Ahead *vgKwPos `(?= @@ )?`
+	Name  string   `@A`
+}
+
+func VH_C14_Grammar_LookaheadOnly() {
+	p, err := participle.Build[vgLookaheadOnly](participle.Lexer(vhLexDef))
+	vAssert(err == nil, "catalogue grammar must build")
+	ast := vhGrammarRoundTrip(p.String(), "VgLookaheadOnly")
+	vAssert(len(ast.Productions) == 3, "C14: a production referenced from a lookahead group is not defined (or defined twice)")
+	vObserve("ebnf", p.String())
+	vReach("grammar")
+}
